@@ -183,12 +183,340 @@ Proof.
     assert (Hall : forallb (fun col : list A => length col =? k) (map row (seq 0 P)) = true).
     { apply forallb_forall. intros col Hin. apply in_map_iff in Hin. destruct Hin as [j [E _]]. subst col.
       unfold row. rewrite tabulate_length. apply Nat.eqb_refl. }
-    rewrite Hall. f_equal. rewrite <- (cpd_eta c) at 2. f_equal.
+    rewrite Hall. f_equal. etransitivity; [|apply cpd_eta]. f_equal.
     apply (tabulate_eq _ _ _ d); [exact Hlen|].
     intros i Hi. destruct (split_index k P i Hi) as [H1 [H2 H3]].
     change (map row (seq 0 P)) with (tabulate P row).
     rewrite (nth_tabulate P row) by exact H2. unfold row. rewrite nth_tabulate by exact H1.
     now rewrite <- H3.
+Qed.
+
+(* ---------------------------------------------------------------- XMLBIF *)
+Lemma pcards_alt (c : cpd A) : map (fun p : var * list state => length (snd p)) (parents c) = pcards c.
+Proof. unfold pcards, pstates. now rewrite map_map. Qed.
+
+Lemma xml_cpd_roundtrip vs (c : cpd A) :
+  blocks_ok vs c -> length (table c) = ccard c * prodl (pcards c) -> 0 < ccard c ->
+  xml_read_def d vs (xml_write_cpd d c) = Some c.
+Proof.
+  intros [Hc Hp] Hlen Hk.
+  unfold xml_read_def, xml_write_cpd. cbn [xd_child xd_parents xd_table].
+  assert (Hs : states_of vs (child c) = cstates c) by (unfold states_of; now rewrite Hc).
+  unfold pvars. rewrite (parents_rebuild vs (parents c) Hp). rewrite !Hs. rewrite tabulate_length.
+  rewrite pcards_alt. fold (ccard c).
+  set (P := prodl (pcards c)) in *. set (k := ccard c) in *.
+  assert (Hdiv : k * P / k = P) by (rewrite Nat.mul_comm; apply Nat.div_mul; lia).
+  rewrite Hdiv. rewrite !Nat.eqb_refl. simpl.
+  f_equal. etransitivity; [|apply cpd_eta]. f_equal.
+  apply (tabulate_eq _ _ _ d); [exact Hlen|].
+  intros i Hi. destruct (split_index k P i Hi) as [H1 [H2 H3]].
+  destruct (divmod_row k (i mod P) (i / P) H1) as [E1 E2].
+  rewrite nth_tabulate by nia.
+  rewrite E1, E2. now rewrite <- H3.
+Qed.
+
+(* ---------------------------------------------------------------- NET *)
+Definition rounded (c : cpd A) : cpd A :=
+  {| child := child c; cstates := cstates c; parents := parents c; table := map rnd (table c) |}.
+
+Lemma last_to_front_snoc l x : last_to_front (l ++ [x]) = x :: l.
+Proof. unfold last_to_front. now rewrite last_last, removelast_last. Qed.
+
+Lemma net_cpd_roundtrip vs (c : cpd A) :
+  blocks_ok vs c -> length (table c) = ccard c * prodl (pcards c) ->
+  net_read_pot d vs (net_write_cpd d rnd c) = Some (rounded c).
+Proof.
+  intros [Hc Hp] Hlen.
+  unfold net_read_pot, net_write_cpd. cbn [np_child np_parents np_data].
+  assert (Hs : states_of vs (child c) = cstates c) by (unfold states_of; now rewrite Hc).
+  unfold pvars. rewrite (parents_rebuild vs (parents c) Hp). rewrite !Hs. rewrite tabulate_length.
+  rewrite pcards_alt. fold (ccard c). rewrite prodl_app. cbn [prodl]. rewrite Nat.mul_1_r.
+  set (P := prodl (pcards c)) in *. set (k := ccard c) in *.
+  rewrite Nat.eqb_refl. f_equal. unfold rounded. f_equal.
+  apply (tabulate_eq _ _ _ (rnd d)); [rewrite map_length; exact Hlen|].
+  intros i Hi. destruct (split_index k P i Hi) as [H1 [H2 H3]].
+  rewrite nth_tabulate by nia.
+  rewrite (unravel_snoc (pcards c) k (i mod P) (i / P)) by (fold P; lia).
+  rewrite last_to_front_snoc. rewrite ravel_cons. fold P.
+  rewrite ravel_unravel by (fold P; lia).
+  rewrite <- H3. now rewrite map_nth.
+Qed.
+
+(* ---------------------------------------------------------------- model level: BIF / XMLBIF / NET *)
+Lemma wf_sorted_blocks (m : bn A) c : wf_bn m -> In c (sort_by (@child_leb A) m) -> In c m.
+Proof. intros _ H. apply (Permutation_in (l := sort_by (@child_leb A) m)); [apply sort_by_perm|exact H]. Qed.
+
+Definition wf_cpd_full (m : bn A) (c : cpd A) : Prop :=
+  wf_cpd m c /\ 0 < ccard c.
+
+Lemma bif_roundtrip (m : bn A) :
+  wf_bn m -> (forall c, In c m -> Forall (@NoDup state) (pstates c)) ->
+  bif_read d (bif_write d m) = Some (sort_by (@child_leb A) m).
+Proof.
+  intros Hwf Hnd. unfold bif_read, bif_write. cbn [bd_vars bd_probs].
+  assert (H : forall l, (forall c, In c l -> In c m) ->
+              otraverse (bif_read_prob d (var_blocks m)) (map (bif_write_cpd d) l) = Some l).
+  { induction l as [|c l IH]; intros Hl; simpl; [reflexivity|].
+    rewrite bif_cpd_roundtrip.
+    - rewrite IH; [reflexivity|]. intros c' Hc'. apply Hl. now right.
+    - apply wf_blocks_ok; [exact Hwf|]. apply Hl. now left.
+    - destruct Hwf as [_ Hw]. apply (Hw c). apply Hl. now left.
+    - apply Hnd. apply Hl. now left. }
+  apply H. intros c Hc. now apply wf_sorted_blocks.
+Qed.
+
+Lemma xml_roundtrip (m : bn A) :
+  wf_bn m -> (forall c, In c m -> 0 < ccard c) ->
+  xml_read d (xml_write d m) = Some (sort_by (@child_leb A) m).
+Proof.
+  intros Hwf Hpos. unfold xml_read, xml_write. cbn [xd_vars xd_defs].
+  assert (H : forall l, (forall c, In c l -> In c m) ->
+              otraverse (xml_read_def d (var_blocks m)) (map (xml_write_cpd d) l) = Some l).
+  { induction l as [|c l IH]; intros Hl; simpl; [reflexivity|].
+    rewrite xml_cpd_roundtrip.
+    - rewrite IH; [reflexivity|]. intros c' Hc'. apply Hl. now right.
+    - apply wf_blocks_ok; [exact Hwf|]. apply Hl. now left.
+    - destruct Hwf as [_ Hw]. apply (Hw c). apply Hl. now left.
+    - apply Hpos. apply Hl. now left. }
+  apply H. intros c Hc. now apply wf_sorted_blocks.
+Qed.
+
+Lemma net_roundtrip (m : bn A) :
+  wf_bn m ->
+  net_read d (net_write d rnd m) = Some (map rounded (sort_by (@child_leb A) m)).
+Proof.
+  intros Hwf. unfold net_read, net_write. cbn [nd_vars nd_pots].
+  assert (H : forall l, (forall c, In c l -> In c m) ->
+              otraverse (net_read_pot d (var_blocks m)) (map (net_write_cpd d rnd) l) = Some (map rounded l)).
+  { induction l as [|c l IH]; intros Hl; simpl; [reflexivity|].
+    rewrite net_cpd_roundtrip.
+    - rewrite IH; [reflexivity|]. intros c' Hc'. apply Hl. now right.
+    - apply wf_blocks_ok; [exact Hwf|]. apply Hl. now left.
+    - destruct Hwf as [_ Hw]. apply (Hw c). apply Hl. now left. }
+  apply H. intros c Hc. now apply wf_sorted_blocks.
+Qed.
+
+(* ---------------------------------------------------------------- UAI *)
+Lemma index_of_pairs (l : list (var * nat)) v k :
+  NoDup (map fst l) -> In (v, k) l ->
+  index_of v (map fst l) < length l /\ nth (index_of v (map fst l)) (map snd l) 0 = k
+  /\ nth (index_of v (map fst l)) (map fst l) 0 = v.
+Proof.
+  induction l as [|[v' k'] l IH]; simpl; intros Hnd Hin; [contradiction|].
+  inversion Hnd as [|? ? Hni Hnd']; subst.
+  destruct (Nat.eqb v v') eqn:E.
+  - apply Nat.eqb_eq in E. subst v'. destruct Hin as [Ein|Hin].
+    + inversion Ein; subst. repeat split; auto; lia.
+    + exfalso. apply Hni. apply (in_map fst) in Hin. exact Hin.
+  - destruct Hin as [Ein|Hin].
+    + inversion Ein; subst. rewrite Nat.eqb_refl in E. discriminate.
+    + destruct (IH Hnd' Hin) as [H1 [H2 H3]]. repeat split; auto; lia.
+Qed.
+
+Definition renum (num : var -> nat) (c : cpd A) : cpd A :=
+  {| child := num (child c); cstates := seq 0 (ccard c);
+     parents := map (fun p => (num (fst p), seq 0 (length (snd p)))) (parents c);
+     table := table c |}.
+
+Lemma uai_domain_perm (m : bn A) :
+  Permutation (uai_variables (uai_domain_bn m)) (map (fun c => (child c, ccard c)) m).
+Proof.
+  unfold uai_variables, uai_domain_bn. rewrite sort_by_perm. apply Permutation_map. apply sort_by_perm.
+Qed.
+
+Lemma uai_vars_nodup (m : bn A) : NoDup (map (@child A) m) -> NoDup (map fst (uai_variables (uai_domain_bn m))).
+Proof.
+  intros Hnd. apply (Permutation_NoDup (l := map (@child A) m)); [|exact Hnd].
+  rewrite (Permutation_map fst (uai_domain_perm m)). rewrite map_map. simpl. reflexivity.
+Qed.
+
+Lemma uai_num_spec (m : bn A) c :
+  NoDup (map (@child A) m) -> In c m ->
+  let vs := uai_variables (uai_domain_bn m) in
+  uai_num vs (child c) < length (map snd vs) /\ nth (uai_num vs (child c)) (map snd vs) 0 = ccard c
+  /\ nth (uai_num vs (child c)) (map fst vs) 0 = child c.
+Proof.
+  intros Hnd Hin vs. unfold uai_num. rewrite map_length.
+  apply index_of_pairs.
+  - now apply uai_vars_nodup.
+  - apply (Permutation_in (l := map (fun c => (child c, ccard c)) m)); [symmetry; apply uai_domain_perm|].
+    apply in_map_iff. exists c. split; [reflexivity|exact Hin].
+Qed.
+
+Lemma uai_fun_roundtrip (m : bn A) c :
+  wf_bn m -> In c m ->
+  let vs := uai_variables (uai_domain_bn m) in
+  uai_read_fun (map snd vs) (map (uai_num vs) (rev (pvars c)) ++ [uai_num vs (child c)]) (table c)
+  = Some (renum (uai_num vs) c).
+Proof.
+  intros [Hnd Hwf] Hin vs. destruct (Hwf c Hin) as [Hlen Hpar].
+  set (num := uai_num vs). set (dom := map snd vs).
+  assert (Hch : num (child c) < length dom /\ nth (num (child c)) dom 0 = ccard c).
+  { destruct (uai_num_spec m c Hnd Hin) as [H1 [H2 _]]. split; assumption. }
+  assert (Hps : forall p ss, In (p, ss) (parents c) -> num p < length dom /\ nth (num p) dom 0 = length ss).
+  { intros p ss Hp. destruct (Hpar p ss Hp) as [c' [Hc' [E1 E2]]]. subst p ss.
+    destruct (uai_num_spec m c' Hnd Hc') as [H1 [H2 _]]. split; assumption. }
+  unfold uai_read_fun.
+  destruct (map num (rev (pvars c)) ++ [num (child c)]) as [|x0 l0] eqn:Escope.
+  { exfalso. symmetry in Escope. revert Escope. apply app_cons_not_nil. }
+  rewrite <- Escope. clear Escope x0 l0.
+  rewrite last_last, removelast_last. rewrite <- map_rev, rev_involutive.
+  destruct Hch as [Hch1 Hch2]. rewrite Hch2.
+  assert (Hpc : map (fun p => nth p dom 0) (map num (pvars c)) = pcards c).
+  { unfold pvars, pcards, pstates. rewrite !map_map. apply map_ext_in. intros [p ss] Hp. simpl.
+    apply (Hps p ss Hp). }
+  rewrite Hpc. rewrite Hlen, Nat.eqb_refl. simpl.
+  assert (Hall : forallb (fun v => v <? length dom) (map num (rev (pvars c)) ++ [num (child c)]) = true).
+  { apply forallb_forall. intros v Hv. apply Nat.ltb_lt. apply in_app_iff in Hv. destruct Hv as [Hv|[Hv|[]]].
+    - apply in_map_iff in Hv. destruct Hv as [p [E Hp]]. subst v. apply in_rev in Hp.
+      unfold pvars in Hp. apply in_map_iff in Hp. destruct Hp as [[p' ss] [E Hp]]. simpl in E. subst p'.
+      apply (Hps p ss Hp).
+    - subst v. exact Hch1. }
+  rewrite Hall. f_equal. unfold renum. f_equal.
+  unfold pvars. rewrite !map_map. apply map_ext_in. intros [p ss] Hp. simpl. f_equal. f_equal.
+  apply (Hps p ss Hp).
+Qed.
+
+Lemma ozip_map {X Y Z} (f : X -> Y -> option Z) (g1 : Z -> X) (g2 : Z -> Y) (l : list Z) :
+  (forall z, In z l -> f (g1 z) (g2 z) = Some z) -> ozip_with f (map g1 l) (map g2 l) = Some l.
+Proof.
+  induction l as [|z l IH]; intros H; simpl; [reflexivity|].
+  rewrite (H z) by now left. rewrite IH; [reflexivity|]. intros y Hy. apply H. now right.
+Qed.
+
+Lemma ozip_map2 {X Y Z W} (f : X -> Y -> option Z) (g1 : W -> X) (g2 : W -> Y) (h : W -> Z) (l : list W) :
+  (forall z, In z l -> f (g1 z) (g2 z) = Some (h z)) -> ozip_with f (map g1 l) (map g2 l) = Some (map h l).
+Proof.
+  induction l as [|z l IH]; intros H; simpl; [reflexivity|].
+  rewrite (H z) by now left. rewrite IH; [reflexivity|]. intros y Hy. apply H. now right.
+Qed.
+
+Lemma uai_roundtrip (m : bn A) :
+  wf_bn m ->
+  uai_read (uai_write m)
+  = Some (map (renum (uai_num (uai_variables (uai_domain_bn m)))) (sort_by (@child_leb A) m)).
+Proof.
+  intros Hwf. unfold uai_read, uai_write. cbn [ud_domain ud_funcs ud_tables].
+  apply ozip_map2. intros c Hc. apply uai_fun_roundtrip; [exact Hwf|].
+  now apply (wf_sorted_blocks m c Hwf).
+Qed.
+
+(* the numbering is a bijection between the model's variables and 0..n-1 *)
+Lemma uai_numbering (m : bn A) :
+  NoDup (map (@child A) m) ->
+  let vs := uai_variables (uai_domain_bn m) in
+  length vs = length m /\
+  (forall c, In c m -> uai_num vs (child c) < length m /\
+                       nth (uai_num vs (child c)) (map fst vs) 0 = child c /\
+                       nth (uai_num vs (child c)) (map snd vs) 0 = ccard c) /\
+  (forall c1 c2, In c1 m -> In c2 m -> uai_num vs (child c1) = uai_num vs (child c2) -> c1 = c2) /\
+  (forall i, i < length m -> exists c, In c m /\ uai_num vs (child c) = i).
+Proof.
+  intros Hnd vs.
+  assert (Hlen : length vs = length m).
+  { unfold vs. rewrite (Permutation_length (uai_domain_perm m)). now rewrite map_length. }
+  assert (Hspec : forall c, In c m -> uai_num vs (child c) < length m /\
+                       nth (uai_num vs (child c)) (map fst vs) 0 = child c /\
+                       nth (uai_num vs (child c)) (map snd vs) 0 = ccard c).
+  { intros c Hc. destruct (uai_num_spec m c Hnd Hc) as [H1 [H2 H3]]. fold vs in H1, H2, H3.
+    rewrite map_length, Hlen in H1. auto. }
+  assert (Hchild_inj : forall c1 c2, In c1 m -> In c2 m -> child c1 = child c2 -> c1 = c2).
+  { clear -Hnd. induction m as [|c m IH]; intros c1 c2 H1 H2 E; [contradiction|].
+    simpl in Hnd. inversion Hnd as [|? ? Hni Hnd']; subst.
+    destruct H1 as [H1|H1], H2 as [H2|H2]; subst; auto.
+    - exfalso. apply Hni. rewrite E. now apply in_map.
+    - exfalso. apply Hni. rewrite <- E. now apply in_map. }
+  repeat split; auto.
+  - apply (Hspec c H).
+  - apply (Hspec c H).
+  - apply (Hspec c H).
+  - intros c1 c2 H1 H2 E. apply Hchild_inj; auto.
+    destruct (Hspec c1 H1) as [_ [E1 _]]. destruct (Hspec c2 H2) as [_ [E2 _]]. rewrite <- E1, <- E2. now rewrite E.
+  - intros i Hi.
+    assert (Hin : In (nth i vs (0, 0)) vs) by (apply nth_In; lia).
+    apply (Permutation_in _ (uai_domain_perm m)) in Hin. apply in_map_iff in Hin.
+    destruct Hin as [c [E Hc]]. exists c. split; [exact Hc|].
+    pose proof (uai_vars_nodup m Hnd) as Hndv. fold vs in Hndv.
+    destruct (Hspec c Hc) as [Hlt [E1 _]].
+    apply (proj1 (NoDup_nth (map fst vs) 0) Hndv); try (rewrite map_length; lia).
+    rewrite E1. change 0 with (fst (0, 0)) at 1. rewrite map_nth. rewrite <- E. reflexivity.
+Qed.
+
+(* ---------------------------------------------------------------- observable statements *)
+(* same child, same state names, same ordered parents with their state names (hence the same edges
+   parent -> child), and the same value for EVERY named assignment *)
+Definition same_cpd (c c' : cpd A) : Prop :=
+  child c' = child c /\ cstates c' = cstates c /\ parents c' = parents c /\
+  forall names, prob_named d c' names = prob_named d c names.
+Definition same_cpd_rounded (c c' : cpd A) : Prop :=
+  child c' = child c /\ cstates c' = cstates c /\ parents c' = parents c /\
+  forall names, prob_named (rnd d) c' names = option_map rnd (prob_named d c names).
+(* UAI: variables renamed to their numbers, states positional *)
+Definition same_cpd_numbered (num : var -> nat) (c c' : cpd A) : Prop :=
+  child c' = num (child c) /\ map fst (parents c') = map num (pvars c) /\
+  cstates c' = seq 0 (ccard c) /\ pstates c' = map (seq 0) (pcards c) /\
+  forall idx, valid_idx (ccard c :: pcards c) idx ->
+    prob_named d c' idx = Some (nth (ravel (ccard c :: pcards c) idx) (table c) d).
+
+Definition models_related (R : cpd A -> cpd A -> Prop) (m m' : bn A) : Prop :=
+  length m' = length m /\
+  (forall c, In c m -> exists c', In c' m' /\ R c c') /\
+  (forall c', In c' m' -> exists c, In c m /\ R c c').
+
+Lemma related_sorted_map (R : cpd A -> cpd A -> Prop) (f : cpd A -> cpd A) (m : bn A) :
+  (forall c, In c m -> R c (f c)) -> models_related R m (map f (sort_by (@child_leb A) m)).
+Proof.
+  intros H. pose proof (sort_by_perm (@child_leb A) m) as Hp. repeat split.
+  - rewrite map_length. now apply Permutation_length.
+  - intros c Hc. exists (f c). split; [|now apply H]. apply in_map.
+    apply (Permutation_in (l := m)); [now symmetry|exact Hc].
+  - intros c' Hc'. apply in_map_iff in Hc'. destruct Hc' as [c [E Hc]]. subst c'.
+    assert (In c m) by (apply (Permutation_in (l := sort_by (@child_leb A) m)); assumption).
+    exists c. split; [assumption|now apply H].
+Qed.
+
+Lemma same_cpd_refl c : same_cpd c c.
+Proof. repeat split; reflexivity. Qed.
+
+Lemma same_cpd_rounded_ok c : same_cpd_rounded c (rounded c).
+Proof.
+  repeat split; try reflexivity. intros names. unfold prob_named, rounded, ccard, pcards, pstates.
+  cbn [child cstates parents table].
+  destruct (positions (cstates c :: map snd (parents c)) names); cbn [option_map]; [|reflexivity].
+  now rewrite map_nth.
+Qed.
+
+Lemma index_of_seq a k i : i < k -> index_of (a + i) (seq a k) = i /\ existsb (Nat.eqb (a + i)) (seq a k) = true.
+Proof.
+  revert a i. induction k as [|k IH]; intros a i Hi; [lia|]. simpl.
+  destruct i as [|i].
+  - rewrite Nat.add_0_r, Nat.eqb_refl. auto.
+  - assert (E : (a + S i =? a) = false) by (apply Nat.eqb_neq; lia). rewrite E. simpl.
+    replace (a + S i) with (S a + i) by lia. destruct (IH (S a) i) as [H1 H2]; [lia|]. rewrite H1, H2. auto.
+Qed.
+
+Lemma positions_seq cards idx : valid_idx cards idx -> positions (map (seq 0) cards) idx = Some idx.
+Proof.
+  intros H. induction H as [|i c is_ cs Hic _ IH]; simpl; [reflexivity|].
+  unfold pos_of. destruct (index_of_seq 0 c i Hic) as [H1 H2]. simpl in H1, H2. rewrite H1, H2, IH. reflexivity.
+Qed.
+
+Lemma same_cpd_numbered_ok num c : same_cpd_numbered num c (renum num c).
+Proof.
+  unfold same_cpd_numbered, renum. cbn [child cstates parents table].
+  assert (Hps : pstates {| child := num (child c); cstates := seq 0 (ccard c);
+                           parents := map (fun p => (num (fst p), seq 0 (length (snd p)))) (parents c);
+                           table := table c |} = map (seq 0) (pcards c)).
+  { unfold pcards, pstates. cbn [parents]. rewrite !map_map. reflexivity. }
+  repeat split.
+  - unfold pvars. rewrite !map_map. reflexivity.
+  - exact Hps.
+  - intros idx Hv. unfold prob_named. rewrite Hps. cbn [cstates].
+    change (seq 0 (ccard c) :: map (seq 0) (pcards c)) with (map (seq 0) (ccard c :: pcards c)).
+    rewrite (positions_seq _ _ Hv). f_equal. f_equal. f_equal. f_equal.
+    + unfold ccard at 1. cbn [cstates]. now rewrite seq_length.
+    + unfold pcards at 1. rewrite Hps. rewrite map_map. rewrite <- (map_id (pcards c)) at 2.
+      apply map_ext. intros n. apply seq_length.
 Qed.
 
 End Layout.
